@@ -1,5 +1,7 @@
 import FitProps.C12Lemmas
+import FitProps.C12CsvLemmas
 import FitModel.TimeAngle
+import FitModel.ScaleOffsetProfile
 import FitModel.Generated.ProfileArith
 /-!
 # C12 — Scaled (physical) and raw representations convert back and forth losslessly
@@ -14,9 +16,17 @@ trip through the helpers, the validator and the CSV reader is the identity: `C12
 pair; for int64 on the exact domain |raw| ≤ 2^49 (`C12_helpers_int64`). The generated `SetXxxScaled` setters truncated in
 their own code (KF-C12-2); after the repair of the template and the regeneration of profile/mesgdef: `C12_typed`.
 
+The generated accessors of slice and fixed-array fields have their own loops: `C12_typed_slice`, `C12_typed_array`; that every
+row of the regenerated accessor table meets the hypotheses is `C12_typed_table` (hence `C12_typed_all`, `C12_typed_slice_all`).
+Developer fields mapped to native fields, one validator over a sequence of messages: `C12_validator_dev`, `_dev_std`, `_seq`
+(`C12_native_table`). The CSV reader's choice between the scaled and the integer path — a '.' in the text: `C12_csv_text`,
+`C12_csv_cell` (`C12_csv_pairs`).
+
 PROPERTY THEOREMS (audited by ./check): C12_f64_round_err, C12_scale_roundtrip_rounded, C12_profile_pairs_in_range,
 C12_helpers, C12_helpers_int64, C12_value_route, C12_validator, C12_csv, C12_slice, C12_unit_identity,
-C12_datetime, C12_semicircles, C12_typed, C12_typed_invalid, C12_typed_witness_fixed, C12_F07_witness_fixed
+C12_datetime, C12_semicircles, C12_typed, C12_typed_invalid, C12_typed_witness_fixed, C12_F07_witness_fixed,
+C12_typed_table, C12_typed_all, C12_typed_slice, C12_typed_array, C12_typed_slice_all, C12_native_table, C12_validator_dev,
+C12_validator_dev_std, C12_validator_dev_own, C12_validator_seq, C12_csv_pairs, C12_csv_text, C12_csv_cell
 -/
 namespace Fit.C12
 open Fit.F64 Fit.ScaleOffset Fit.Value Fit.C12L
@@ -243,5 +253,302 @@ scale 5 / offset 500 as 1; the sentinel of a uint16 accessor is 0xFFFF -/
 theorem C12_typed_witness_fixed :
     typedRT .u32 0xFFFFFFFF 29 0x4059000000000000 0 = 29 ∧
     typedRT .u16 0xFFFF 1 0x4014000000000000 0x407f400000000000 = 1 ∧ maxPat .u16 = 0xFFFF := by decide +kernel
+
+/-! ### every generated accessor: the regenerated table -/
+
+/-- **C12_typed_table.** Every row of the regenerated table of generated `XxxScaled` / `SetXxxScaled` pairs
+(`Generated/ProfileArith.lean`, printed on every run by reflection over the compiled mesgdef structs: Go kind of the
+element, invalid sentinel, and the scale / offset of the factory field the struct field maps to) meets the hypotheses
+of `C12_typed`: the element type is an integer type of at most 32 bits, the sentinel is the largest value of that
+type, and the (scale, offset) pair is a pair of the profile. Kernel-evaluated over the whole table. -/
+theorem C12_typed_table : ∀ t ∈ Fit.Gen.PA.typed,
+    (intTyOfCode t.ty).bits ≤ 32 ∧ t.invalid = maxPat (intTyOfCode t.ty) ∧ (t.scale, t.offset) ∈ profilePairs := by
+  decide +kernel
+
+/-- **C12_typed_all.** For EVERY generated accessor pair of profile/mesgdef (scalar accessors, and the element rule of
+the slice / fixed-array ones): every raw value of the element type other than the sentinel comes back. -/
+theorem C12_typed_all (t : Fit.PA.Typed) (ht : t ∈ Fit.Gen.PA.typed) (r : Nat) (hr : r < 2 ^ (intTyOfCode t.ty).bits)
+    (hne : r ≠ t.invalid) : typedRT (intTyOfCode t.ty) t.invalid r t.scale t.offset = r := by
+  obtain ⟨hb, hi, hp⟩ := C12_typed_table t ht
+  rw [hi] at hne ⊢
+  exact C12_typed (intTyOfCode t.ty) hb r hr hne (t.scale, t.offset) hp
+
+/-- non-vacuity: the table is not empty, it has scalar, slice and fixed-array rows, and `Record.Altitude` is one of them -/
+example : Fit.Gen.PA.typed.length = 381 ∧ (Fit.Gen.PA.typed.filter (·.arr == 1)).length = 66 ∧
+    (Fit.Gen.PA.typed.filter (·.arr > 1)).map (·.arr) = [4, 10] ∧
+    (lookupTyped "Record" "Altitude").map (fun t => (t.ty, t.invalid)) = some (3, 0xFFFF) := by decide +kernel
+
+/-! ### slice and fixed-array accessors -/
+
+/-- an element of a slice / array accessor: the sentinel included (it maps to the float64 invalid pattern and back) -/
+theorem typedRT_elem (ty : IntTy) (hty : ty.bits ≤ 32) (r : Nat) (hr : r < 2 ^ ty.bits)
+    (pr : Nat × Nat) (hpr : pr ∈ profilePairs) : typedRT ty (maxPat ty) r pr.1 pr.2 = r := by
+  by_cases h : r = maxPat ty
+  · rw [h]; exact C12_typed_invalid ty pr.1 pr.2
+  · exact C12_typed ty hty r hr h pr hpr
+
+theorem map_typedRT (ty : IntTy) (hty : ty.bits ≤ 32) (xs : List Nat) (hxs : ∀ x ∈ xs, x < 2 ^ ty.bits)
+    (pr : Nat × Nat) (hpr : pr ∈ profilePairs) :
+    (xs.map fun x => getScaled ty (maxPat ty) x pr.1 pr.2).map (fun v => setScaled ty (maxPat ty) v pr.1 pr.2) = xs := by
+  induction xs with
+  | nil => rfl
+  | cons x xs ih =>
+    have h1 := typedRT_elem ty hty x (hxs x (by simp)) pr hpr
+    simp only [typedRT] at h1
+    simp only [List.map_cons, h1, ih (fun y hy => hxs y (by simp [hy]))]
+
+/-- the fixed-array setter ("fill with the sentinel, skip the elements that cannot be stored") is the scalar setter
+applied to every element -/
+theorem setScaledArray_eq_map (ty : IntTy) (inv : Nat) (vs : List Nat) (s o : Nat) :
+    setScaledArray ty inv vs s o = vs.map fun v => setScaled ty inv v s o := by
+  unfold setScaledArray
+  induction vs with
+  | nil => rfl
+  | cons v vs ih =>
+    simp only [List.length_cons, List.replicate_succ, List.zipWith_cons_cons, List.map_cons, ih]
+    rfl
+
+/-- **C12_typed_slice.** The generated accessors of a slice field `[]T` (`T` an integer type of at most 32 bits):
+`SetXxxScaled(XxxScaled())` gives back the slice — nil stays nil (`none`), an empty slice stays empty, and EVERY
+element comes back, the invalid sentinel included (element-wise: it maps to the float64 invalid pattern and back),
+negative elements of signed types included — for every pair of the profile. -/
+theorem C12_typed_slice (ty : IntTy) (hty : ty.bits ≤ 32) (xs : Option (List Nat))
+    (hxs : ∀ l, xs = some l → ∀ x ∈ l, x < 2 ^ ty.bits) (pr : Nat × Nat) (hpr : pr ∈ profilePairs) :
+    setScaledSlice ty (maxPat ty) (getScaledSlice ty (maxPat ty) xs pr.1 pr.2) pr.1 pr.2 = xs := by
+  cases xs with
+  | none => rfl
+  | some l =>
+    simp only [getScaledSlice, setScaledSlice]
+    rw [map_typedRT ty hty l (hxs l rfl) pr hpr]
+
+/-- **C12_typed_array.** The generated accessors of a fixed-array field `[N]T`: the same identity for every array
+of any length `N`, whether it is the all-sentinel array (answered by the getter's whole-array test) or not. -/
+theorem C12_typed_array (ty : IntTy) (hty : ty.bits ≤ 32) (xs : List Nat)
+    (hxs : ∀ x ∈ xs, x < 2 ^ ty.bits) (pr : Nat × Nat) (hpr : pr ∈ profilePairs) :
+    setScaledArray ty (maxPat ty) (getScaledArray ty (maxPat ty) xs pr.1 pr.2) pr.1 pr.2 = xs := by
+  have hinv : setScaled ty (maxPat ty) Fit.Gen.float64Invalid pr.1 pr.2 = maxPat ty := by
+    have := C12_typed_invalid ty pr.1 pr.2
+    simpa [typedRT, getScaled] using this
+  rw [setScaledArray_eq_map]
+  unfold getScaledArray
+  split
+  · next h => rw [List.map_replicate, hinv]; exact h.symm
+  · exact map_typedRT ty hty xs hxs pr hpr
+
+/-- non-vacuity of the two theorems: a nil slice, a slice holding a negative element, the sentinel and the largest
+valid value at scale 100 (AviationAttitude.AccelLateral); the all-sentinel and a mixed [3]int16 (GpsMetadata.Velocity) -/
+example :
+    getScaledSlice .i16 0x7FFF none 0x4059000000000000 0 = none ∧
+    setScaledSlice .i16 0x7FFF (getScaledSlice .i16 0x7FFF (some [0xFF6A, 0x7FFF, 0x7FFE]) 0x4059000000000000 0)
+      0x4059000000000000 0 = some [0xFF6A, 0x7FFF, 0x7FFE] ∧
+    getScaledArray .i16 0x7FFF [0x7FFF, 0x7FFF, 0x7FFF] 0x4059000000000000 0 = List.replicate 3 Fit.Gen.float64Invalid ∧
+    setScaledArray .i16 0x7FFF (getScaledArray .i16 0x7FFF [0x8000, 0x7FFF, 29] 0x4059000000000000 0)
+      0x4059000000000000 0 = [0x8000, 0x7FFF, 29] := by decide +kernel
+
+/-- **C12_typed_slice_all.** For EVERY generated slice accessor (rows with `arr = 1` of the regenerated table) and
+every generated fixed-array accessor (rows with `arr = N + 1`): the round trip of the whole field is the identity. -/
+theorem C12_typed_slice_all (t : Fit.PA.Typed) (ht : t ∈ Fit.Gen.PA.typed) :
+    (∀ xs : Option (List Nat), (∀ l, xs = some l → ∀ x ∈ l, x < 2 ^ (intTyOfCode t.ty).bits) →
+      setScaledSlice (intTyOfCode t.ty) t.invalid (getScaledSlice (intTyOfCode t.ty) t.invalid xs t.scale t.offset)
+        t.scale t.offset = xs) ∧
+    (∀ xs : List Nat, (∀ x ∈ xs, x < 2 ^ (intTyOfCode t.ty).bits) →
+      setScaledArray (intTyOfCode t.ty) t.invalid (getScaledArray (intTyOfCode t.ty) t.invalid xs t.scale t.offset)
+        t.scale t.offset = xs) := by
+  obtain ⟨hb, hi, hp⟩ := C12_typed_table t ht
+  rw [hi]
+  exact ⟨fun xs hxs => C12_typed_slice _ hb xs hxs (t.scale, t.offset) hp,
+    fun xs hxs => C12_typed_array _ hb xs hxs (t.scale, t.offset) hp⟩
+
+/-! ### encoder validator: developer fields mapped to native fields -/
+
+/-- **C12_native_table.** Every field the standard factory knows (regenerated: `Generated/ProfileArith.lean` `fields`,
+what `factory.StandardFactory().CreateField` returns as far as the validator reads it) has the unit pair or a pair of
+the profile. -/
+theorem C12_native_table : ∀ e ∈ Fit.Gen.PA.fields,
+    isUnit e.2.2.2.1 e.2.2.2.2 = true ∨ (e.2.2.2.1, e.2.2.2.2) ∈ profilePairs := by
+  decide +kernel
+
+/-- **C12_validator_dev.** A developer field whose field description designates a native field (valid native message
+and field number) and whose value is that native field's scaled float64 form comes back from the validator as the raw
+integer: for EVERY state `st` of the validator (whatever messages and look-ups came before) in which the developer data
+index was announced and `d` is the description found for the field, every factory `fac` that answers `(bt, scale,
+offset)` for THAT description's native (message, field) with a pair of the profile, every raw value of the integer type
+the base type restores to (at most 32 bits), aligned with the description's own base type. -/
+theorem C12_validator_dev (fac : Factory) (st : VState) (devIdx num : Nat) (d : DevDesc)
+    (hddi : st.ddis.contains devIdx = true)
+    (hfind : st.descs.find? (fun x => x.devIdx == devIdx && x.num == num) = some d)
+    (hn : d.nativeMesg ≠ Fit.Gen.mesgNumInvalid ∧ d.nativeField ≠ Fit.Gen.uint8Invalid) (bt : Nat) (pr : Nat × Nat)
+    (hfac : fac d.nativeMesg d.nativeField = some (bt, pr.1, pr.2)) (hpr : pr ∈ profilePairs)
+    (ty : IntTy) (hty : ty.bits ≤ 32) (p : Nat) (hp : p < 2 ^ ty.bits) (hbt : tgtOfBaseType bt = some (.int ty))
+    (hal : align (scalarV ty p) d.btId = true) :
+    validatorDevField fac st devIdx num (applyValue (scalarV ty p) pr.1 pr.2) = .ok (scalarV ty p) := by
+  have hv := C12_validator ty hty p hp bt hbt pr hpr
+  have hr : validatorRestoreDev fac d (applyValue (scalarV ty p) pr.1 pr.2) = scalarV ty p := by
+    unfold validatorRestoreDev
+    rw [if_pos hn, hfac]
+    simpa [validatorRestore] using hv
+  simp only [validatorDevField, hddi, Bool.not_true, Bool.false_eq_true, if_false, hfind, hr, hal]
+
+/-- the same with the standard factory: no hypothesis on the pair is left — whatever native field of the profile
+the description designates, if it is scaled its pair is a profile pair (`C12_native_table`) -/
+theorem C12_validator_dev_std (st : VState) (devIdx num : Nat) (d : DevDesc)
+    (hddi : st.ddis.contains devIdx = true)
+    (hfind : st.descs.find? (fun x => x.devIdx == devIdx && x.num == num) = some d)
+    (hn : d.nativeMesg ≠ Fit.Gen.mesgNumInvalid ∧ d.nativeField ≠ Fit.Gen.uint8Invalid) (bt s o : Nat)
+    (hfac : stdFactory d.nativeMesg d.nativeField = some (bt, s, o)) (hnu : isUnit s o = false)
+    (ty : IntTy) (hty : ty.bits ≤ 32) (p : Nat) (hp : p < 2 ^ ty.bits) (hbt : tgtOfBaseType bt = some (.int ty))
+    (hal : align (scalarV ty p) d.btId = true) :
+    validatorDevField stdFactory st devIdx num (applyValue (scalarV ty p) s o) = .ok (scalarV ty p) := by
+  have hpr : (s, o) ∈ profilePairs := by
+    unfold stdFactory at hfac
+    cases hf : Fit.Gen.PA.fields.find? (fun e => e.1 == d.nativeMesg && e.2.1 == d.nativeField) with
+    | none => simp [hf] at hfac
+    | some e =>
+      simp only [hf, Option.map_some, Option.some.injEq, Prod.mk.injEq] at hfac
+      obtain ⟨_, rfl, rfl⟩ := hfac
+      rcases C12_native_table e (List.mem_of_find?_eq_some hf) with h | h
+      · rw [h] at hnu; cases hnu
+      · exact h
+  exact C12_validator_dev stdFactory st devIdx num d hddi hfind hn bt (s, o) hfac hpr ty hty p hp hbt hal
+
+/-- the helper round trip for a pair given by its exact values (no bit-level side condition) -/
+theorem helperRT_fin (ty : IntTy) (hty : ty.bits ≤ 32) (p : Nat) (hp : p < 2 ^ ty.bits) (s o : Nat) (S O : ℚ)
+    (hs : IsFin s S) (ho : IsFin o O) (ho64 : o < 2 ^ 64) (hS : 1 / 2 ≤ S) (hS' : S ≤ 2 ^ 17) (hO : |O| ≤ 2 ^ 10)
+    (hu : isUnit s o = false) : helperRT ty p s o = p := by
+  have hrb : (ty.toInt p).natAbs ≤ 2 ^ 32 :=
+    le_trans (toInt_natAbs_le ty p) (Nat.pow_le_pow_right (by norm_num) hty)
+  have hfin : IsFin (round (discard (apply (ofInt (ty.toInt p)) s o) s o)) ((ty.toInt p : Int) : ℚ) := by
+    simp only [ScaleOffset.discard, ScaleOffset.apply, hu, Bool.false_eq_true, if_false]
+    exact chain_fin _ (by omega) s o S O hs ho ho64 hS hS' hO
+  simp only [helperRT, discardScalar, Num.isInteger, if_true, conv, toF64]
+  rw [cvt_int ty hty _ _ hfin (toInt_inRange ty p), wrap_toInt ty p hp]
+
+/-- **C12_validator_dev_own.** A developer field whose description designates NO native field but carries a scale
+(uint8, 1…254) and an offset (int8) of its own: the value scaled with `float64(scale)`, `float64(offset)` is restored
+to the raw integer, for every such scale and offset (the unit pair included: the value is then never a float64),
+every integer type of at most 32 bits the description's base type restores to, every raw value. -/
+theorem C12_validator_dev_own (fac : Factory) (d : DevDesc)
+    (hn : ¬(d.nativeMesg ≠ Fit.Gen.mesgNumInvalid ∧ d.nativeField ≠ Fit.Gen.uint8Invalid))
+    (hso : d.scale ≠ Fit.Gen.uint8Invalid ∧ d.offset ≠ Fit.Gen.sint8Invalid) (hs1 : 1 ≤ d.scale) (hs2 : d.scale ≤ 254)
+    (ty : IntTy) (hty : ty.bits ≤ 32) (p : Nat) (hp : p < 2 ^ ty.bits) (hbt : tgtOfBaseType d.btId = some (.int ty)) :
+    validatorRestoreDev fac d (applyValue (scalarV ty p) (ofInt d.scale) (ofInt (IntTy.i8.toInt d.offset))) = scalarV ty p := by
+  unfold validatorRestoreDev
+  rw [if_neg hn, if_pos hso]
+  by_cases hu : isUnit (ofInt d.scale) (ofInt (IntTy.i8.toInt d.offset)) = true
+  · simp only [applyValue, hu, if_true]
+    cases ty <;> rfl
+  · have hu' : isUnit (ofInt d.scale) (ofInt (IntTy.i8.toInt d.offset)) = false := by simpa using hu
+    have hS := ofInt_fin (d.scale : Int) (by omega)
+    have hOb : (IntTy.i8.toInt d.offset).natAbs ≤ 2 ^ 8 := toInt_natAbs_le .i8 d.offset
+    have hO := ofInt_fin (IntTy.i8.toInt d.offset) (by omega)
+    have hOq : |((IntTy.i8.toInt d.offset : Int) : ℚ)| ≤ 2 ^ 10 := by
+      rw [← Int.cast_abs, ← Nat.cast_natAbs]
+      have : ((IntTy.i8.toInt d.offset).natAbs : ℚ) ≤ 2 ^ 8 := by exact_mod_cast hOb
+      linarith [show (2 : ℚ) ^ 8 ≤ 2 ^ 10 by norm_num]
+    have h1 : (1 : ℚ) / 2 ≤ ((d.scale : Int) : ℚ) := by
+      have : (1 : ℚ) ≤ ((d.scale : Int) : ℚ) := by exact_mod_cast hs1
+      linarith
+    have h2 : ((d.scale : Int) : ℚ) ≤ 2 ^ 17 := by
+      have : ((d.scale : Int) : ℚ) ≤ 254 := by exact_mod_cast hs2
+      linarith [show (254 : ℚ) ≤ 2 ^ 17 by norm_num]
+    have := helperRT_fin ty hty p hp _ _ _ _ hS hO (ofInt_lt64 _ (by omega)) h1 h2 hOq hu'
+    simp only [applyValue, hu', Bool.false_eq_true, if_false, scalarOf_scalarV, discardValue, hbt]
+    simp only [helperRT] at this
+    rw [this]; rfl
+
+/-- non-vacuity: a uint16 developer field with its own scale 10 / offset −3 (pattern 253), raw 29 -/
+example : validatorRestoreDev stdFactory ⟨0, 0, 0x84, 10, 253, 65535, 255⟩
+    (applyValue (.uint16 29) (ofInt 10) (ofInt (IntTy.i8.toInt 253))) = .uint16 29 := by decide +kernel
+
+/-- non-vacuity (the example of the seeded change C12-3): after a developer_data_id, a description mapped to
+lap.avg_altitude (19/42, uint16, 5/500) and one mapped to session.avg_stroke_distance (18/42, uint16, 100), and a lap
+carrying the first, the session's developer field 2.50 m comes back as raw 250 -/
+example :
+    stdFactory 19 42 = some (0x84, 0x4014000000000000, 0x407f400000000000) ∧
+    stdFactory 18 42 = some (0x84, 0x4059000000000000, 0) ∧
+    validatorSeq stdFactory {} [.ddi 0, .desc ⟨0, 0, 0x84, 255, 127, 19, 42⟩, .desc ⟨0, 1, 0x84, 255, 127, 18, 42⟩,
+      .mesg [(0, 0, applyValue (.uint16 2513) 0x4014000000000000 0x407f400000000000)],
+      .mesg [(0, 1, applyValue (.uint16 250) 0x4059000000000000 0)]] =
+      [.ok [], .ok [], .ok [], .ok [.uint16 2513], .ok [.uint16 250]] := by decide +kernel
+
+/-- the developer data indexes / field descriptions a sequence of messages announces, in order -/
+def ddisOf (items : List VItem) : List Nat := items.filterMap fun | .ddi i => some i | _ => none
+def descsOf (items : List VItem) : List DevDesc := items.filterMap fun | .desc d => some d | _ => none
+
+theorem validatorSeq_append (fac : Factory) (pre : List VItem) (st : VState) (it : VItem) :
+    validatorSeq fac st (pre ++ [it]) =
+      validatorSeq fac st pre ++ [(validatorStep fac ⟨st.ddis ++ ddisOf pre, st.descs ++ descsOf pre⟩ it).2] := by
+  induction pre generalizing st with
+  | nil => simp [validatorSeq, ddisOf, descsOf]
+  | cons a pre ih =>
+    simp only [List.cons_append, validatorSeq]
+    rw [ih]
+    cases a <;> simp [validatorStep, ddisOf, descsOf, List.append_assoc]
+
+/-- **C12_validator_seq.** ONE validator over a sequence of messages: what it answers for a message with developer
+fields depends on the messages before it only through the developer data indexes and field descriptions they
+announced, in order — not on the data messages validated or the native fields looked up before. (With
+`C12_validator_dev`, which holds for every such state: each natively-mapped developer field of the sequence is restored
+with the scale / offset / base type of ITS OWN native field.) -/
+theorem C12_validator_seq (fac : Factory) (pre : List VItem) (devs : List (Nat × Nat × Value)) :
+    (validatorSeq fac {} (pre ++ [.mesg devs])).getLast? =
+      some (devs.mapM fun d => validatorDevField fac ⟨ddisOf pre, descsOf pre⟩ d.1 d.2.1 d.2.2) := by
+  rw [validatorSeq_append]
+  simp [validatorStep]
+
+/-! ### the CSV text of a scaled value -/
+
+/-- **C12_csv_pairs.** Every pair of the profile meets the decidable side condition of the CSV text lemma
+(`csvPairOK`: in range, and either no offset and a scale of at most 2^16, or integer scale ≤ 2^11 and integer offset). -/
+theorem C12_csv_pairs : ∀ pr ∈ profilePairs, csvPairOK pr.1 pr.2 = true := by decide +kernel
+
+/-- the distinct pairs of the profile without offset -/
+def smallPairs : List (Nat × Nat) :=
+  (profilePairs.foldl (fun acc p => if acc.contains p then acc else acc ++ [p]) []).filter fun p => zeroOffset p.2
+
+theorem smallPairs_cover : ∀ pr ∈ profilePairs, zeroOffset pr.2 = true → pr ∈ smallPairs := by decide +kernel
+
+/-- raw values of magnitude below 7 at the pairs without offset: evaluated -/
+theorem csv_small : ∀ pr ∈ smallPairs, ∀ i ∈ List.range 13,
+    csvHasDot (apply (ofInt ((i : Int) - 6)) pr.1 pr.2) = true := by decide +kernel
+
+/-- **C12_csv_text.** The text the CSV writer produces for the scaled value `raw/scale − offset` of ANY raw value of an
+integer type of at most 32 bits at ANY pair of the profile contains a '.' (`csvHasDot`, the model of fitcsv `format` +
+strconv tied by the operation `socd`): a whole value is written "x.0"; any other value of magnitude at least 10^-4 in
+`%f` or many-digit `%e` form; the values below 10^-4 (raw 1…6 at scales above 10^4) are evaluated and are not one-digit
+decimals. So `parseValue` reads every such cell through its scaled path — never through `ParseUint`/`ParseInt`,
+which would take "5" for raw 5 instead of raw 500. -/
+theorem C12_csv_text (ty : IntTy) (hty : ty.bits ≤ 32) (p : Nat) (pr : Nat × Nat) (hpr : pr ∈ profilePairs) :
+    csvHasDot (apply (toF64 (.int ty) p) pr.1 pr.2) = true := by
+  have hrb : (ty.toInt p).natAbs ≤ 2 ^ 32 :=
+    le_trans (toInt_natAbs_le ty p) (Nat.pow_le_pow_right (by norm_num) hty)
+  simp only [toF64]
+  by_cases hbig : zeroOffset pr.2 = true → 7 ≤ (ty.toInt p).natAbs
+  · exact csv_text_main _ hrb pr.1 pr.2 (C12_csv_pairs pr hpr) hbig
+  · rw [Classical.not_imp] at hbig
+    obtain ⟨hz, hsm⟩ := hbig
+    have hi : ((ty.toInt p + 6).toNat : Int) - 6 = ty.toInt p := by omega
+    have := csv_small pr (smallPairs_cover pr hpr hz) (ty.toInt p + 6).toNat (by simp only [List.mem_range]; omega)
+    rwa [hi] at this
+
+/-- **C12_csv_cell.** FIT → CSV cell → FIT for a scaled column, text decision included: the cell written for
+`ApplyValue(raw)` is read back as the raw value (`csvCell` = "contains '.'" test, then `parseValue`'s scaled path;
+strconv's parsing of its own shortest text is assumed exact). -/
+theorem C12_csv_cell (ty : IntTy) (hty : ty.bits ≤ 32) (p : Nat) (hp : p < 2 ^ ty.bits) (bt : Nat)
+    (hbt : csvTgt bt = some (.int ty)) (pr : Nat × Nat) (hpr : pr ∈ profilePairs) :
+    csvCell (apply (toF64 (.int ty) p) pr.1 pr.2) bt pr.1 pr.2 = some (some (scalarV ty p)) := by
+  simp only [csvCell, C12_csv_text ty hty p pr hpr, if_true, C12_csv ty hty p hp bt hbt pr hpr]
+
+/-- non-vacuity of the hypotheses on the base type: uint16 (0x84) is read as uint16 by the CSV reader and aligns with it -/
+example : csvTgt 0x84 = some (.int .u16) ∧ align (scalarV .u16 250) 0x84 = true ∧
+    tgtOfBaseType 0x84 = some (.int .u16) := by decide
+
+/-- non-vacuity, and what the theorem excludes: raw 500 at scale 100 is written "5.0" (whole), raw 1 at scale 65536 is
+1.52587890625e-05 (many digits); the float64 nearest to 1e-05 or 2e+19 would be written without a '.' — no scaled value
+of the profile is such a number -/
+example : csvHasDot (apply (toF64 (.int .u16) 500) 0x4059000000000000 0) = true ∧
+    csvHasDot (apply (toF64 (.int .u32) 1) 0x40f0000000000000 0) = true ∧
+    csvHasDot 0x3ee4f8b588e368f1 = false ∧ csvHasDot 0x43f158e460913d00 = false ∧
+    csvCell 0x3ee4f8b588e368f1 0x84 0x4059000000000000 0 = none := by decide +kernel
 
 end Fit.C12
